@@ -18,6 +18,65 @@
 Require Import Verif.Model.Base Verif.Model.Utf8 Verif.Model.Buffer.
 Require Import Verif.Proofs.BufferP.
 
+(* ---- the source against the concrete model: the buffer methods of PrintCtx as they are in /repo now
+   (translated on every run, Gen/Buffers.v) ARE the steps of the model [cstep] the refinement theorems
+   below are about.  A []byte is (visible part d, spare capacity sp) - so re-slicing up to the capacity
+   is expressible; the state is (s.buf, s.off, s.lastRead); every index and slice expression is a possible
+   range panic (BRange); the state a panic leaves behind is compared too.  Hypothesis: the state is
+   well formed (0 <= off <= len), which C19_invariant preserves.  [bview] reads a generated result as
+   (state afterwards, result) of the model; the capacity policy does not occur in these methods. ---- *)
+Require Import Verif.Model.GoSem Verif.Model.BufRef.
+Require Verif.Gen.Buffers Verif.Proofs.GenBufP.
+
+Theorem C19_gen_reset : forall nil d sp o l,
+  bview nil res_unit (Buffers.buf_reset (d, sp) o l) = cstep (fun c => c) 0 (abs_pc nil ((d, sp), o, l)) OReset.
+Proof. exact GenBufP.gen_buf_reset. Qed.
+Print Assumptions C19_gen_reset.
+
+Theorem C19_gen_truncate : forall nil d sp o l n, 0 <= o <= Z.of_nat (length d) ->
+  bview nil res_unit (Buffers.buf_truncate (d, sp) o l n) = cstep (fun c => c) 0 (abs_pc nil ((d, sp), o, l)) (OTruncate n).
+Proof. exact GenBufP.gen_buf_truncate. Qed.
+Print Assumptions C19_gen_truncate.
+
+Theorem C19_gen_read_byte : forall nil d sp o l, 0 <= o <= Z.of_nat (length d) ->
+  bview nil res_byte (Buffers.buf_read_byte (d, sp) o l) = cstep (fun c => c) 0 (abs_pc nil ((d, sp), o, l)) OReadByte.
+Proof. exact GenBufP.gen_buf_read_byte. Qed.
+Print Assumptions C19_gen_read_byte.
+
+Theorem C19_gen_read_rune : forall nil d sp o l, 0 <= o <= Z.of_nat (length d) ->
+  bview nil res_rune (Buffers.buf_read_rune (d, sp) o l) = cstep (fun c => c) 0 (abs_pc nil ((d, sp), o, l)) OReadRune.
+Proof. exact GenBufP.gen_buf_read_rune. Qed.
+Print Assumptions C19_gen_read_rune.
+
+Theorem C19_gen_unread_byte : forall nil d sp o l,
+  bview nil res_err (Buffers.buf_unread_byte (d, sp) o l) = cstep (fun c => c) 0 (abs_pc nil ((d, sp), o, l)) OUnreadByte.
+Proof. exact GenBufP.gen_buf_unread_byte. Qed.
+Print Assumptions C19_gen_unread_byte.
+
+Theorem C19_gen_unread_rune : forall nil d sp o l,
+  bview nil res_err (Buffers.buf_unread_rune (d, sp) o l) = cstep (fun c => c) 0 (abs_pc nil ((d, sp), o, l)) OUnreadRune.
+Proof. exact GenBufP.gen_buf_unread_rune. Qed.
+Print Assumptions C19_gen_unread_rune.
+
+Theorem C19_gen_next : forall nil d sp o l n, 0 <= o <= Z.of_nat (length d) ->
+  bview nil res_slice (Buffers.buf_next (d, sp) o l n) = cstep (fun c => c) 0 (abs_pc nil ((d, sp), o, l)) (ONext n).
+Proof. exact GenBufP.gen_buf_next. Qed.
+Print Assumptions C19_gen_next.
+
+(* Read(p): the count, the error and the first n bytes of p afterwards *)
+Theorem C19_gen_read : forall nil d sp o l pd psp, 0 <= o <= Z.of_nat (length d) ->
+  bview_read nil (Buffers.buf_read (d, sp) o l (pd, psp)) =
+  cstep (fun c => c) 0 (abs_pc nil ((d, sp), o, l)) (ORead (Z.of_nat (length pd))).
+Proof. exact GenBufP.gen_buf_read. Qed.
+Print Assumptions C19_gen_read.
+
+(* WriteTo: the io.Writer is an oracle answering (m, e) with 0 <= m; it is handed exactly the unread bytes *)
+Theorem C19_gen_write_to : forall nil d sp o l m (e : bool), 0 <= o <= Z.of_nat (length d) -> 0 <= m ->
+  bview_wt nil (Buffers.buf_write_to (d, sp) o l tt m (if e then EUser else ENil) []) =
+  cstep (fun c => c) 0 (abs_pc nil ((d, sp), o, l)) (OWriteTo m e).
+Proof. exact GenBufP.gen_buf_write_to. Qed.
+Print Assumptions C19_gen_write_to.
+
 (* For EVERY operation list (any arguments: sizes zero, negative, beyond the
    contents; any runes; any reader/writer scripts), from NewPrintCtx(b) for any b,
    capacity and nil-ness: same results, errors, panics, String() and Len() at
